@@ -407,7 +407,8 @@ class _Emitter:
             elif ch == "\n":
                 out.append("\n" if (lay.multiline_strings and not self.inline) else "\\n")
             elif ch == "\r":
-                out.append("\\r")
+                # with multi-line literals a carriage return is written raw as well (it stays part of the string, also in front of a line feed)
+                out.append("\r" if (lay.multiline_strings and not self.inline and lay.rng.random() < 0.7) else "\\r")
             else:
                 out.append(ch)
         return "".join(out)
